@@ -259,6 +259,14 @@ let model_run (line : string) : string =
          | None -> "no-options-item")
       | 'K' -> ""   (* marker: the case has a module / generic function name clash *)
       | 'm' | 'p' -> canon_tree (run cfg0 Test) true made
+      | 'x' ->
+        (* three concurrent Divan::default().test_benches(): no filters, no ignore flag; every run executes every
+           selected case once, every argument list is evaluated once for the whole process *)
+        let cfgd = { c_run_ignored = RINo; c_opts = { o_ignore = None; o_sample_count = None };
+                     c_filter = (fun _ -> true); c_threads = [] } in
+        let one = List.map (fun ((id, _), arg) -> "C" ^ string_of_n id ^ (match arg with None -> "" | Some (_, v) -> "=" ^ render_val v))
+            (executed (fst (run cfgd Test))) in
+        String.concat ";" (List.sort compare (one @ one @ one)) ^ "!" ^ made
       | 'n' -> canon_terse (run cfg0 ListTerse)
       | 'a' | 'b' | 'c' | 'd' | 'f' | 'g' | 'h' | 'j' | 'k' ->
         (* (list, test, bench, terse accepted) as the harness passes them for this letter *)
@@ -551,6 +559,24 @@ let c17_sb (line : string) : string =
       if List.sort compare ls <> exp_lines then
         bad ("listed-rows-are-not-the-selected-ones unexpected=" ^ String.concat "+" (List.map enc (List.filter (fun x -> not (List.mem x exp_lines)) ls))
              ^ " missing=" ^ String.concat "+" (List.map enc (List.filter (fun x -> not (List.mem x ls)) exp_lines)))
+    | 'x' ->
+      (* concurrent runs: each of the three runs calls every selected case once, and every argument list is
+         evaluated exactly once for the whole process *)
+      (match split_bang body with
+       | calls :: made :: rest ->
+         if rest <> [] then bad ("concurrent-runs-status:" ^ String.concat "," rest);
+         let cfgd = { c_run_ignored = RINo; c_opts = { o_ignore = None; o_sample_count = None };
+                      c_filter = (fun _ -> true); c_threads = [] } in
+         let one = List.map (fun ((id, _), arg) -> "C" ^ string_of_n id ^ (match arg with None -> "" | Some (_, v) -> "=" ^ render_val v))
+             (flat_exec cfgd benches groups) in
+         if not (c12_flat_sb (List.map st (one @ one @ one)) (List.map st (items_of calls))) then
+           bad "concurrent-runs-do-not-each-call-every-case-once";
+         let counts = List.filter_map (fun m ->
+             match String.index_opt m 'x' with
+             | Some i -> Some (n_of_string (String.sub m (i + 1) (String.length m - i - 1)))
+             | None -> None) (items_of made) in
+         if not (c17_once_sb counts) then bad ("argument-list-evaluated-more-than-once-under-concurrent-runs:" ^ made)
+       | _ -> bad "concurrent-runs-unreadable")
     | 'D' | 'L' | 'A' | 'K' | 'E' -> ()
     | _ -> bad "unreadable-output") secs;
   if !fail = [] then "true" else "false " ^ String.concat " " (List.rev !fail)
